@@ -47,7 +47,7 @@ def run(ctx):
                                    (m, c.get("kind"), json.dumps(c.get("in"))[:700]))
     need = ["read:ok", "read:eof", "read:unexpected-eof", "read:other", "read:wellformed-caps-only",
             "read:wellformed-shorter-than-37", "update:error", "update:nh16", "withdraw:over4096", "open", "keepalive",
-            "sess:cap-flip-on-off", "sess:cap-flip-off-on", "sess:capflip-ebgp-updates-after-flip"] + \
+            "sess:cap-flip-on-off", "sess:cap-flip-off-on", "sess:capflip-ebgp-updates-after-flip", "sess:hold=0", "sess:hold=nil"] + \
            ["update:len%%8=%d" % k for k in range(8)]
     if cases and any(stats.get(k, 0) == 0 for k in need):
         raise Exception("generator degenerate: %r" % stats)
@@ -81,7 +81,7 @@ def run(ctx):
                         "octet SHOULD be ignored); the two flags are not used by the session; counted in read:mp-capability-with-reserved-octet"]
     ctx.finish(len(cases), distinct,
                "real encoders on boundary ASNs x every prefix length 0..32 x iBGP/eBGP x 4-byte capability, 0/1/2/62/63/64/65/100 and large communities, "
-               "4- and 16-byte next hops, withdraw lists up to 815 prefixes; real sessions reconnecting to a peer whose 4-octet-AS capability flipped (UPDATE bytes decoded with the width of the current connection); readOpen on generated OPENs (random capability lists) and their "
+               "4- and 16-byte next hops, withdraw lists up to 815 prefixes; real sessions: the OPEN on the wire compared field by field with the configuration (hold time nil/0/3/30/90/odd), and reconnects to a peer whose 4-octet-AS capability flipped (UPDATE bytes decoded with the width of the current connection); readOpen on generated OPENs (random capability lists) and their "
                "bit-flipped/truncated/extended/wrong-length variants, notifications and random bytes, delivered in random chunk sizes; "
                "non-trivial = input/output of at least 19 bytes or a non-empty prefix list; distinct by JSON of the case",
                [c["in"] for c in cases[:3]], search=search)
